@@ -105,6 +105,11 @@ func unitServes(u *Unit, prop string) bool {
 			}
 		}
 	}
+	for _, cl := range c.Decreases {
+		if hasProp(cl.Props, prop) {
+			return true
+		}
+	}
 	for _, ls := range c.Before {
 		for _, cl := range ls {
 			if hasProp(cl.Props, prop) {
